@@ -32,18 +32,20 @@ def script(h, fam):
         # the same document with CR LF line endings, through the string family: the answers must be those of the LF spelling (offsets counted in lines of two bytes)
         src = src.replace(b"\n", b"\r\n"); fam = "s"
     def reads(sid):
-        if fam in "ep":
+        if fam in "epq":
             return [line("e_meta", 0, "has"), line("e_meta", 0, "keys")] + [line("e_meta", 0, "val", sx(enc(k))) for k in keys]
         return [line("meta", fam, sid, "has"), line("meta", fam, sid, "keys")] + [line("meta", fam, sid, "val", sx(enc(k))) for k in keys]
     out.append(line("src", "m0", sx(src)))
-    if fam in "ep": out.append(line("e_new", 0, "m0", 0, 0))
+    if fam in "epq": out.append(line("e_new", 0, "m0", 0, 0))
     if fam == "p": out.append(line("e_parse", 0))            # the engine holds a complete parse tree before the first query / update
     out += reads("m0")
+    if fam == "q": out += [line("e_conv", 0, docs.FMT["html"])] + reads("m0")[1:] + reads("m0")[:1]     # asked first, THEN converted for the first time, asked again (keys first, the re-scanning query last)
     for i, u in enumerate(h["upds"]):
-        if fam in "ep": out.append(line("e_meta", 0, "upd", sx(enc(u["ks"])), sx(enc(u["us"]))))
+        if fam in "epq": out.append(line("e_meta", 0, "upd", sx(enc(u["ks"])), sx(enc(u["us"]))))
         else: out.append(line("meta", fam, "m%d" % i, "upd", sx(enc(u["ks"])), sx(enc(u["us"])), "m%d" % (i + 1)))
         out += reads("m%d" % (i + 1))
-    if fam in "ep": out.append(line("e_free", 0))
+        if fam == "q": out += [line("e_conv", 0, docs.FMT["latex"])] + reads("m0")[1:]
+    if fam in "epq": out.append(line("e_free", 0))
     if fam == "s":
         # the complete document carries the same values: <title> and <meta name= content=> of the HTML head, read back with an HTML parser
         last = "m%d" % len(h["upds"])
@@ -137,12 +139,13 @@ def run(tier, seed):
         hs += g2.printed
     hists = uniq(h0 + h1 + hs)
     exe = build.build_harness("asan"); cli = build.build_cli()
-    fams = ["s", "d", "e", "p", "c"]
+    fams = ["s", "d", "e", "p", "c", "q"]
     segs = []; owners = []
     for i, h in enumerate(hists):
         for f in fams:
             if f != "e" and len(h["upds"]) > 0 and i % 2 and f == "d": continue
             if f == "c" and i % 3: continue
+            if f == "q" and i % 2 == 0 and tier == "quick": continue
             segs.append(["seg\tmeta", "wantout\t1"] + script(h, f)); owners.append((i, f))
     # the caller of a re-used engine owns the text: parse document A, put document B of the same length (other keys, other values) in its place, query
     bylen = {}
